@@ -270,7 +270,7 @@ def main(chk):
                                  "nhasx", "uni", "cont")] +
             ["jn:" + j for j in oq.JDOWN + oq.JUP] + ["sel:" + s for s in ("ent", "cols", "x", "pair", "entcol", "grp", "entgrp")])
     for k_ in need:
-        if not cov.get(k_):
+        if not chk.violations and not cov.get(k_):
             chk.machinery("vacuous: no case with a non-empty result for " + k_)
     samples = [dict(ds=c["ds"], q=c["q"], rows=c["rows"]) for c in cases if len(c["rows"]) >= 2 and c["q"]["pf"] != "none"][:4]
     return chk.finish(
